@@ -167,6 +167,10 @@ def main(argv):
             violations.append((key, name, g, "failed"))
         elif g["unknown"]:
             b = baseline.get("obligations", {}).get(key + "|" + name)
+            if b is None and name.endswith("/outcome") and key in baseline.get("hashes", {}):
+                # "this behaviour case ends the way the contract says (returns / raises)" is one obligation per case; on the
+                # unchanged tree no path with the wrong kind of outcome was feasible, i.e. it was discharged by path pruning
+                b = {"discharged": True, "implicit": True}
             if b is not None and b.get("discharged") and baseline.get("hashes", {}).get(key) != g["hash"]:
                 # proved on the unchanged tree, the function's source changed, proof no longer goes through
                 violations.append((key, name, g, "regressed"))
